@@ -8,8 +8,8 @@ import (
 	"fmt"
 	"os"
 	"sort"
-	"time"
 	"strings"
+	"time"
 
 	"github.com/NethermindEth/juno/blockchain/statebackend"
 	"github.com/NethermindEth/juno/core"
@@ -92,10 +92,10 @@ func (t *trace) cellsOf(f *core.AggregatedBloomFilter) string { return cellsStri
 // diskObs is what model and implementation both show of a store.
 type diskObs struct {
 	H, St, Wins, Snap, L1 string
-	WinBits             map[string]string
-	SnapBits            string
-	Init, InitBits      string
-	Head, Above         string // blkobs of the head block and of the number above it
+	WinBits               map[string]string
+	SnapBits              string
+	Init, InitBits        string
+	Head, Above           string // blkobs of the head block and of the number above it
 }
 
 func persistedWindows(store db.KeyValueStore) []uint64 {
